@@ -163,7 +163,7 @@ def check(model: Model, run: Run) -> None:
     plan_s, facts_s = header_plan(model, folder, rs)
 
     # ------------------------------------------------------------------ R1 twins
-    run.rule('C06.R1', 'Connection.reader and reader_async perform the same header checks in the same order with the same (code, subcode) and body length', floor=3)
+    run.rule('C06.R1', 'Connection.reader and reader_async perform the same header checks in the same order with the same (code, subcode) and body length', floor=1)
     strip = lambda plan: [(p['kind'], p['err'], str(p['consts'])) for p in plan]
     if len(plan_a) < 3:
         run.cannot('fewer than 3 header checks extracted from reader_async (%s)' % strip(plan_a))
@@ -243,7 +243,7 @@ def check(model: Model, run: Run) -> None:
         )
 
     # ------------------------------------------------------------------ R3 constants
-    run.rule('C06.R3', 'constants: MARKER = 16 x 0xFF, HEADER_LEN = 19, initial/extended sizes 4096/65535, Message.Length table = RFC 4271 4 / RFC 2918', floor=8)
+    run.rule('C06.R3', 'constants: MARKER = 16 x 0xFF, HEADER_LEN = 19, initial/extended sizes 4096/65535, Message.Length table = RFC 4271 4 / RFC 2918', floor=6)
     msg = model.cls('exabgp.bgp.message.message.Message')
     run.analysed(model.func('exabgp.bgp.message.message.Message.unpack'))
     marker = folder.class_attr(msg.qualname, 'MARKER')
@@ -293,7 +293,7 @@ def check(model: Model, run: Run) -> None:
     _r4_exact(model, run, folder)
 
     # ------------------------------------------------------------------ R5 unknown type / unchanged codes
-    run.rule('C06.R5', 'read_message: the reader error is re-raised with its own code/subcode; a type outside the known set raises Notify(1, 3)', floor=2)
+    run.rule('C06.R5', 'read_message: the reader error is re-raised with its own code/subcode; a type outside the known set raises Notify(1, 3)', floor=1)
     _r5_unknown_type(model, run, folder)
 
     # ------------------------------------------------------------------ R6 msg_size
